@@ -10,8 +10,8 @@ from common import hx
 
 FILES = ["gen/Gen_tensors.v", "gen/Gen_voigt.v", "Model_voigt.v", "Proofs_tensors_alg.v"] + \
         [f"Proofs_tensors_rot{i}.v" for i in range(9)] + \
-        ["Proofs_tensors_rot.v", "Proofs_tensors_maps.v", "Proofs_tensors_proj.v", "Inst_tensors.v", "Inst_voigt.v",
-         "Inst_voigt_a0.v", "Inst_voigt_a1.v", "Inst_voigt_a01.v", "Inst_voigt_a10.v", "Proofs_voigt.v",
+        ["Proofs_tensors_rot.v", "Proofs_tensors_maps.v", "Proofs_tensors_proj.v", "Inst_tensors.v", "Inst_voigt.v", "Inst_voigt_m1_a1.v", "Inst_voigt_m1_a01.v", "Inst_voigt_m1_a10.v",
+         "Inst_voigt_a0.v", "Inst_voigt_a0_b.v", "Inst_voigt_a1.v", "Inst_voigt_a01.v", "Inst_voigt_a10.v", "Proofs_voigt.v",
          "Model_decomp.v", "Proofs_decomp.v", "Proofs_voigt2.v", "Proofs_voigt3.v", "Proofs_voigt_gen.v", "Entry_tensors.v", "Extract_tensors.v"]
 PROP = "Properties/C10.v"
 
@@ -160,7 +160,8 @@ def oracle(c):
     avg = r[1]
     pres = c.get("pres") or {}
     tol = 1e-5 if "float32" in pres.values() else 1e-9      # float32 operands: part of the arithmetic runs in binary32
-    sc = max(1.0, float(np.abs(avg).max()))
+    # relative to the size of the result / of the stiffness constants: no absolute floor
+    sc = max(float(np.abs(avg).max()), max(float(np.abs(np.asarray(t)).max()) for t in c["tensors"])) or 1.0
     asm, phis = c["assemblage"], np.asarray(c["phis"])
     nsteps = len(c["minerals"][0]["orientations"])
     if np.abs(avg - avg.transpose(0, 2, 1)).max() > tol * sc:
@@ -183,7 +184,7 @@ def oracle(c):
         for i in range(nsteps):
             K, G_ = KG(avg[i])
             if abs(K - Kx) > tol * sc or abs(G_ - Gx) > tol * sc:
-                f.append(f"bulk/shear moduli of the average ({K:.6f}, {G_:.6f}) differ from the phase-weighted single-crystal Voigt moduli ({Kx:.6f}, {Gx:.6f})")
+                f.append(f"bulk/shear moduli of the average ({K:.9g}, {G_:.9g}) differ from the phase-weighted single-crystal Voigt moduli ({Kx:.9g}, {Gx:.9g})")
                 break
     # co-rotation with the reference frame: A -> A.Q^T
     Q = G.haar(np.random.default_rng(7))
@@ -390,6 +391,8 @@ def fails_of(c):
     k = c.get("kind", "valid")
     if k == "stateful":
         return oracle_seq(c)
+    if k.startswith("magnitude:"):
+        return oracle(c)
     if k.startswith("presentation:"):
         # the property read on another presentation of the same numbers; a presentation numba / NumPy has no
         # typing for may be refused loudly
@@ -553,6 +556,56 @@ def compare_pres(chk, cases):
     return bad
 
 
+# --------------------------------------------------------------------------
+# magnitudes: the average is linear in the stiffness constants -- the unit they are expressed in does not matter
+# --------------------------------------------------------------------------
+MAG_PLAN = [("scaled", k) for k in (-60, -40, -34, -30, -20, 20, 40, 60)] + [("odd", t) for t in (3e-11, 2.0 ** -40, 1e-15, 1e12)]
+
+
+def gen_mag_case(rng, what, v):
+    """scaled: both stiffness matrices in units of 2^v;  odd: one coupling constant of each matrix replaced by v"""
+    c = gen_case(rng, "valid")
+    ng = min(c["minerals"][0]["n_grains"], 6)
+    for m in c["minerals"]:
+        m["n_grains"] = ng
+        m["orientations"] = [o[:ng] for o in m["orientations"]]
+        m["fractions"] = [f[:ng] / f[:ng].sum() for f in m["fractions"]]
+    if what == "scaled":
+        c["tensors"] = [t * 2.0 ** v for t in c["tensors"]]
+    else:
+        for t in c["tensors"]:
+            i, j = sorted(int(x) for x in rng.integers(0, 6, size=2))
+            t[i, j] = t[j, i] = v
+    c["kind"] = f"magnitude:{what}:{v!r}"
+    return c
+
+
+def gen_mag_cases(chk, tier):
+    rng = np.random.default_rng(chk.seed + 13)
+    return [gen_mag_case(rng, w, v) for _ in range(1 if tier == "quick" else 10) for w, v in MAG_PLAN]
+
+
+def compare_mag(chk, cases):
+    """implementation vs extracted model with a tolerance relative to the size of the stiffness constants (no absolute floor)"""
+    mres = common.run_model([model_line(c) for c in cases], group=G.GROUP)
+    bad = []
+    hist = chk.cov.setdefault("magnitude_histogram", {})
+    for c, m in zip(cases, mres):
+        r = impl(c)
+        hist[c["kind"]] = hist.get(c["kind"], 0) + 1
+        chk.note_case(("voigt-magnitude", c["kind"], model_line(c)), nontrivial=(r[0] == "OK"),
+                      sample={"kind": c["kind"], "impl": r[1] if r[0] == "ERR" else [float(v) for v in r[1].reshape(-1)[:3]]})
+        if r[0] == "ERR" or m[0] == "ERR":
+            if not (r[0] == m[0] == "ERR" and r[1] == m[1]):
+                bad.append((c, f"{c['kind']}: implementation {r[:2] if r[0] == 'ERR' else 'OK'}, model {m[:2] if m[0] == 'ERR' else 'OK'}"))
+            continue
+        scale = max(float(np.abs(t).max()) for t in c["tensors"])
+        okc, idx = common.vec_close(list(r[1].reshape(-1)), m[1], rtol=0.0, atol=1e-10 * scale)
+        if not okc:
+            bad.append((c, f"{c['kind']}: component {idx}: implementation {r[1].reshape(-1)[idx]!r} vs model {m[1][idx]!r} (stiffness scale {scale:.3g})"))
+    return bad
+
+
 def gen_cases(chk, tier):
     rng = np.random.default_rng(chk.seed)
     n = 260 if tier == "quick" else 3000      # ~0.2 s per case in the extracted model (rotate4 over lists)
@@ -587,7 +640,7 @@ def compare(chk, cases):
 def search(chk, extra=()):
     rng = np.random.default_rng(chk.seed + 1)
     pool = [c for c in extra] + [gen_seq(rng, SEQ_VARIANTS[k % len(SEQ_VARIANTS)]) for k in range(14)] \
-        + [gen_pres_case(rng, w, k) for w, k in PRES_PLAN] \
+        + [gen_pres_case(rng, w, k) for w, k in PRES_PLAN] + [gen_mag_case(rng, w, v) for w, v in MAG_PLAN] \
         + [gen_case(rng, KINDS[k % len(KINDS)]) for k in range(60)]
     found, seen = [], set()
     for c in pool:
@@ -607,7 +660,7 @@ def run(chk):
         "hand-written Model_voigt.voigt_averages (validation, triple loop, lookups: stiffness by phase ordinal, phase fraction by position in the assemblage); tied by this differential run "
         "(all sizes) AND by tie T at small sizes: gen/Gen_voigt.v is regenerated from the real voigt_averages on every run (translator/specs_tensors_glue.py: real Mineral / StiffnessTensors objects "
         "with symbolic contents, PhaseOrd = symbolic MineralPhase ordinal forking on its members, the real StiffnessTensors.__iter__, tensor kernels as calls of Gen_tensors; emit_coq plain_let_calls) "
-        "and Inst_voigt*.v equate its 25 configurations with the model",
+        "and Inst_voigt*.v equate its 26 configurations with the model",
         "the per-grain kernels are the generated Gen_tensors.k_voigt_to_elastic_tensor / k_elastic_tensor_to_voigt and rotate4, tied to the generated k_rotate by Inst_tensors.rotate4_is_k_rotate",
         "StiffnessTensors.__iter__ yields (olivine, enstatite) = phase-ordinal order (the harness passes the tensors in that order; checked by the differential run with distinct custom tensors)",
     ]
@@ -622,13 +675,15 @@ def run(chk):
                        "PRESENTATION stream: the same numbers with another dtype / layout / container -- stiffness attributes int64 / int32 / float32 / Fortran / strided / reversed / read-only "
                        "(generic orientations), orientations int (signed permutations) / float32 / Fortran / strided / reversed / read-only / nested list, fractions int / float32 / strided / "
                        "reversed / read-only / list, phase_fractions tuple / ndarray / np.float32 / int, minerals and assemblage as tuples, everything at once: same value as the model on the "
-                       "same numbers or a loud refusal")
+                       "same numbers or a loud refusal; MAGNITUDE stream: stiffness constants in units of 2^k (k = -60 .. 60) and with one coupling constant of 3e-11 / 2^-40 / 1e-15 / 1e12, "
+                       "tolerance relative to the size of the constants (no absolute floor)")
     bad = []
     if br.drivers.get(G.GROUP, 1) is None:
         cases = gen_cases(chk, chk.tier)
         bad = compare(chk, cases)
         bad += compare_seqs(chk, gen_seqs(chk, chk.tier))
         bad += compare_pres(chk, gen_pres_cases(chk, chk.tier))
+        bad += compare_mag(chk, gen_mag_cases(chk, chk.tier))
         chk.cov["traces_validated_against_impl"] = len(cases) + chk.cov.get("stateful_calls", 0)
     chk.cov["disagreements"] = len(bad)
     if ok and not bad:
